@@ -87,17 +87,31 @@ def one_case(src, mexe, idx, seed, tier):
         e2v.sh([T("debugfs/debugfs"), "-w", "-f", "-", img], input=script.encode(), env=env, timeout=600)
         for i in range(bulk):
             dirs["/d"][("bulk_%04d_" % i).ljust(nmlen, "z")] = "write"
+        if not linear:
+            # libext2fs builds linear directories; e2fsck -D turns them into indexed ones, later inserts go through dx_link
+            e2v.sh([T("e2fsck/e2fsck"), "-fyD", img], env=env, timeout=300)
     fs = Fs(img)
     payload = fs.bs - (12 if fs.has_csum else 0)
+    directed = []
+    mkdir_burst = 45 if (bulk and not linear) else 0      # sub-directories into an indexed directory until leaves split
+    if bulk and linear:
+        # remove the first record of a later block, then the record behind it (its predecessor is an unused slot now)
+        blks = dir_blocks(fs, lookup(fs, "/d"))
+        for b in blks[1:3]:
+            livenames = [nm.decode("latin1") for i, rl, nm in b if i and nm not in (b".", b"..")]
+            if len(livenames) >= 3:
+                directed += [livenames[0], livenames[1]]
     ops, problems = [], []
     corr, corr_bad = 0, []
-    nops = r.randint(20, 80 if tier == "quick" else 400)
+    nops = r.randint(20, 80 if tier == "quick" else 400) + (45 if bulk and not linear else 0)
     burst = None
     for k in range(nops):
-        d = r.choice(sorted(dirs))
+        d = "/d" if (directed or mkdir_burst) else r.choice(sorted(dirs))
         names = sorted(dirs[d])
         kind = r.random()
-        if burst:
+        if mkdir_burst:
+            kind = 0.1
+        elif burst:
             kind = burst[0]
             burst = (burst[0], burst[1] - 1) if burst[1] > 1 else None
         elif r.random() < 0.05:
@@ -109,11 +123,18 @@ def one_case(src, mexe, idx, seed, tier):
             if nm in dirs[d] or nm in (".", ".."):
                 continue
             how = r.choice(["write", "write", "mkdir", "symlink", "mknod", "ln"] if raw_mode else ["write", "write", "mkdir", "symlink", "mknod"])
+            if mkdir_burst:
+                how = "mkdir"
+                mkdir_burst -= 1
             cmd = {"write": "write /etc/hostname %s/%s", "mkdir": "mkdir %s/%s", "symlink": "symlink %s/%s /target/x", "mknod": "mknod %s/%s p",
                    "ln": "ln /seed %s/%s"}[how] % (d, nm)
             expect = ("add", d, nm, how)
-        elif kind < 0.9:
+        elif kind < 0.9 or directed:
             nm = r.choice(names)
+            if directed and d == "/d" and directed[0] in dirs[d]:
+                nm = directed.pop(0)
+            elif directed and d == "/d":
+                directed.pop(0)
             what = dirs[d][nm]
             if what == "mkdir":
                 if ("%s/%s" % (d, nm)) in dirs and dirs["%s/%s" % (d, nm)]:
